@@ -71,6 +71,15 @@ func (fc *FunctionConverge) Converged(l *Location) Status {
 	if fc.Iterations == 0 {
 		return NotTerminated
 	}
+	if math.IsNaN(fc.best) || math.IsInf(fc.best, 1) {
+		// Any number is a significant decrease from a best value that
+		// is not one; the test below cannot see it (0*Inf, Inf-Inf).
+		if f < fc.best || (math.IsNaN(fc.best) && !math.IsNaN(f)) {
+			fc.best = f
+			fc.iter = 0
+			return NotTerminated
+		}
+	}
 	maxAbs := math.Max(math.Abs(f), math.Abs(fc.best))
 	if f < fc.best && fc.best-f > fc.Relative*maxAbs+fc.Absolute {
 		fc.best = f
